@@ -45,6 +45,12 @@ Fixpoint seqs {A} (l : list (option A)) : option A :=
 
 Definition when {A} (c : bool) (body : option A) : option A := if c then body else None.
 
+(* key[0] / key[-1]: IndexError on an empty sequence, as in Python *)
+Definition with_first {A B} (l : list A) (e : B) (f : A -> option B) : option B :=
+  match l with [] => Some e | x :: _ => f x end.
+Definition with_last {A B} (l : list A) (e : B) (f : A -> option B) : option B :=
+  match rev l with [] => Some e | x :: _ => f x end.
+
 Definition len {A} (l : list A) : Z := Z.of_nat (List.length l).
 
 (* ---- regular expressions over code points ------------------------------------------- *)
@@ -66,19 +72,8 @@ Fixpoint nullable (r : re) : bool :=
   | RStar _ => true
   end.
 
-Fixpoint deriv (c : Z) (r : re) : re :=
-  match r with
-  | RNone => RNone
-  | REps => RNone
-  | RCls k => if in_cls c k then REps else RNone
-  | RAlt a b => RAlt (deriv c a) (deriv c b)
-  | RCat a b => if nullable a then RAlt (RCat (deriv c a) b) (deriv c b)
-                else RCat (deriv c a) b
-  | RStar a => RCat (deriv c a) (RStar a)
-  end.
-
-(* cheap simplification so that derivatives of the generated patterns stay small when the
-   harness evaluates [matchb] on strings of 2000 code points; proved language-preserving *)
+(* Brzozowski derivative with cheap simplification (smart constructors), so that derivatives
+   of the generated patterns stay small when [matchb] runs on strings of 2000 code points *)
 Definition salt (a b : re) : re :=
   match a, b with
   | RNone, _ => b
